@@ -7,7 +7,7 @@
 (* collected as data; the rest of a diverging execution is skipped.        *)
 (* Environment: TRACE = ndjson file, OUT = result file.                    *)
 (***************************************************************************)
-EXTENDS Debugger, Assembler, Flags, Cli, Json, IOUtils, TLC
+EXTENDS SpendSetup, Assembler, Flags, Cli, Json, IOUtils, TLC
 
 Tr == ndJsonDeserialize(IOEnv.TRACE)
 OutFile == IOEnv.OUT
@@ -39,16 +39,28 @@ MkCtx(o) ==
         leafhash |-> IF Has(o, "leafhash") THEN H(o.leafhash) ELSE <<>>,
         pretend |-> IF Has(o, "pretend") THEN {<<H(o.pretend[i][1]), H(o.pretend[i][2])>> : i \in 1..Len(o.pretend)} ELSE {}]
 
+\* --tx/--txin sessions set up by the tool itself (auto): the specification's own set-up of the same pair
+IsAuto(o) == Has(o, "auto")
+AutoFlags(o) == IF Has(o, "fmods") THEN ModifyFlags(StrToCodes(o.fmods))[2] ELSE SetOf(o.flags)
+AutoTx(o) == Parse(H(o.tx))[2]
+AutoFunding(o) == Parse(H(o.txin))[2]
+AutoSetup(o) == Setup(AutoTx(o), AutoFunding(o), o.select, AutoFlags(o))
+AutoSpent(o, su) == IF Has(o, "spent_all") THEN [i \in 1..Len(o.spent_all) |-> [amount |-> H(o.spent_all[i][1]), script |-> H(o.spent_all[i][2])]]
+                    ELSE DefaultSpent(AutoTx(o), AutoFunding(o), su)
+SigverNum == [BASE |-> 0, WITNESS_V0 |-> 1, TAPROOT |-> 2, TAPSCRIPT |-> 3]
+
 MkSession(o) ==
-    InitSession(MkCtx(o), HexSeq(o.stack), IF Has(o, "succ") THEN H(o.succ) ELSE <<>>, NoTce,
+    IF IsAuto(o) THEN (LET su == AutoSetup(o) IN IF su.refused THEN [refused |-> TRUE, why |-> su.why] ELSE SessionOf(AutoTx(o), AutoFunding(o), su, AutoFlags(o), AutoSpent(o, su)))
+    ELSE InitSession(MkCtx(o), HexSeq(o.stack), IF Has(o, "succ") THEN H(o.succ) ELSE <<>>, NoTce,
                 IF Has(o, "weight") THEN o.weight ELSE 0)
 
 ExpView(s) == [stack |-> s.vm.stack, alt |-> s.vm.alt, cond |-> CondView(s.vm.cond), pc |-> s.vm.pc,
                opcount |-> s.vm.opcount, cbegin |-> s.vm.cbegin, cspos |-> s.vm.cspos, oppos |-> s.vm.oppos,
-               weight |-> s.vm.weight, done |-> s.done, seq |-> s.seq]
+               weight |-> s.vm.weight, done |-> s.done, seq |-> s.seq,
+               tcei |-> IF s.tce.active THEN s.tce.i ELSE -1, tcek |-> IF s.tce.active THEN s.tce.k ELSE <<>>]
 ObsView(ev) == [stack |-> HexSeq(ev.stack), alt |-> HexSeq(ev.alt), cond |-> ev.cond, pc |-> ev.pc,
                 opcount |-> ev.opcount, cbegin |-> ev.cbegin, cspos |-> ev.cspos, oppos |-> ev.oppos,
-                weight |-> ev.weight, done |-> ev.done, seq |-> ev.seq]
+                weight |-> ev.weight, done |-> ev.done, seq |-> ev.seq, tcei |-> ev.tce.i, tcek |-> H(ev.tce.k)]
 Mismatch(s, ev) == LET e == ExpView(s) o == ObsView(ev) IN {f \in (SetOf(cur.cmp) \cap DOMAIN e) : e[f] # o[f]}
 
 \* printable form of the expected state
@@ -78,6 +90,45 @@ DoOpen(ev) ==
     /\ stats' = Bump("execs") /\ UNCHANGED <<divs, cov>>
 
 \* Opened / Refused must agree with the admissibility rule of the domain (C01) and the size rule (C10)
+\* set-up of a --tx/--txin session: refusal, selected input, amount, scripts, stack, version, budget, leaf hash
+DoAwaitAuto(ev) ==
+    LET su == AutoSetup(cur) IN
+    IF ev.e = "Refused" THEN
+        (IF su.refused THEN /\ mode' = "skip" /\ stats' = Bump("refused") /\ cov' = cov \cup {<<"setup", "refused:" \o su.why>>} /\ UNCHANGED <<divs, sess, cur>>
+         ELSE /\ divs' = Append(divs, Div("refused a spend that can be set up", [kind |-> su.kind, op |-> "setup"], ev)) /\ mode' = "skip" /\ UNCHANGED <<cov, sess, cur, stats>>)
+    ELSE IF ev.e = "Opened" THEN
+        (IF su.refused /\ su.soft THEN /\ mode' = "vonly" /\ cov' = cov \cup {<<"setup", "unrolled-invalid:" \o su.why>>} /\ UNCHANGED <<divs, sess, cur, stats>>
+         ELSE IF su.refused THEN /\ divs' = Append(divs, Div("set up a spend that must be refused", [why |-> su.why, op |-> "setup"], [e |-> ev.e, script |-> ev.script, stack |-> ev.stack]))
+                            /\ mode' = "skip" /\ UNCHANGED <<cov, sess, cur, stats>>
+         ELSE LET bad == {f \in {"nin", "vout", "amount", "sigver", "script", "succ", "stack", "weight", "tcek", "done"} :
+                            CASE f = "nin" -> ev.nin # su.nin
+                              [] f = "vout" -> ev.vout # su.vout
+                              [] f = "amount" -> H(ev.amount8) # su.amount
+                              [] f = "sigver" -> ev.sigver # SigverNum[su.sigver]
+                              [] f = "script" -> H(ev.script) # su.script
+                              [] f = "succ" -> H(ev.succ) # su.succ
+                              [] f = "stack" -> HexSeq(ev.stack) # su.stack
+                              [] f = "weight" -> su.sigver = "TAPSCRIPT" /\ ev.weight # su.weight
+                              [] f = "tcek" -> su.tce.active /\ (ev.tce.i # 0 \/ H(ev.tce.k) # su.tce.k)
+                              [] f = "done" -> ev.done # sess.done}
+              IN IF bad # {} THEN /\ divs' = Append(divs, Div("spend set-up", [kind |-> su.kind, op |-> "setup", fields |-> bad, exp |-> Show(sess),
+                                                                                 script |-> BytesToHex(su.script), succ |-> BytesToHex(su.succ)], ev))
+                                  /\ mode' = "skip" /\ UNCHANGED <<cov, sess, cur, stats>>
+                 ELSE /\ mode' = "run" /\ cov' = cov \cup {<<"setup", su.kind>>} /\ UNCHANGED <<divs, sess, cur, stats>>)
+    ELSE /\ divs' = Append(divs, Div("unexpected event after Open", <<>>, ev)) /\ mode' = "skip" /\ UNCHANGED <<cov, sess, cur, stats>>
+
+\* end of a --tx/--txin session: it finishes without error and with the required final stack exactly when the input is valid
+VerdictMismatch(ev, exp) ==
+    /\ IsAuto(cur) /\ "verdict" \in SetOf(cur.cmp)
+    /\ (exp.done \/ exp.vm.status = "failed") /\ exp.vm.status # "unspec"
+    /\ LET su == AutoSetup(cur)
+           valid == Verdict(AutoTx(cur), AutoFunding(cur), su, AutoFlags(cur), AutoSpent(cur, su)) = ""
+           obsOK == ev.ok /\ ev.done /\ FinalStackOK(su.kind, AutoFlags(cur), HexSeq(ev.stack))
+       IN valid # obsOK
+VerdictInfo(exp) ==
+    LET su == AutoSetup(cur) IN [op |-> "verdict", kind |-> su.kind, consensus |-> Verdict(AutoTx(cur), AutoFunding(cur), su, AutoFlags(cur), AutoSpent(cur, su)),
+                                 session |-> Show(exp)]
+
 DoAwait(ev) ==
     LET adm == Admissible(sess.ctx.script, RealLimits.elem)
         tooBig == sess.ctx.sigver \in {"BASE", "WITNESS_V0"} /\ Len(sess.ctx.script) > RealLimits.script
@@ -102,7 +153,8 @@ Judge(ev, exp, opname, endsExecution) ==
     IF exp.vm.status = "unspec" THEN
         /\ mode' = "skip" /\ stats' = Bump("unspec") /\ UNCHANGED <<divs, cov, sess, cur>>
     ELSE IF exp.vm.status = "failed" THEN
-        IF ~ev.ok /\ (exp.vm.err = "ANY" \/ exp.vm.err = ev.err \/ "err" \notin SetOf(cur.cmp))
+        IF ~ev.ok /\ (exp.vm.err = "ANY" \/ exp.vm.err = ev.err \/ "err" \notin SetOf(cur.cmp)
+                       \/ sess.ctx.sigver = "TAPROOT" \/ opname = "commit")
         THEN /\ mode' = "skip" /\ cov' = cov \cup {<<opname, exp.vm.err>>} /\ stats' = Bump("failed")
              /\ UNCHANGED <<divs, sess, cur>>
         ELSE /\ divs' = Append(divs, Div("step must fail", [op |-> opname, err |-> exp.vm.err, pre |-> Show(sess)], ev))
@@ -137,6 +189,9 @@ ExpDigestHex(s) ==
 DoRun(ev) ==
     IF ev.e = "Step" /\ DigestMismatch(ev) THEN
         /\ divs' = Append(divs, Div("signature digest", [op |-> NextOpName(sess), digest |-> ExpDigestHex(sess), pre |-> Show(sess)], ev))
+        /\ mode' = "skip" /\ UNCHANGED <<cov, sess, cur, stats>>
+    ELSE IF ev.e = "Step" /\ VerdictMismatch(ev, Step(sess)) THEN
+        /\ divs' = Append(divs, Div("validity of the input", VerdictInfo(Step(sess)), ev))
         /\ mode' = "skip" /\ UNCHANGED <<cov, sess, cur, stats>>
     ELSE IF ev.e = "Step" THEN Judge(ev, IF cur.hist THEN StepH(sess) ELSE Step(sess), NextOpName(sess), FALSE)
     ELSE IF ev.e = "StepAtEnd" THEN
@@ -192,8 +247,17 @@ Next ==
             /\ divs' = Append(divs, Div("crash (signal, abort or uncaught exception) - no specification action allows it",
                                          IF mode = "run" THEN Show(sess) ELSE <<>>, ev))
             /\ mode' = "skip" /\ UNCHANGED <<cov, sess, cur, stats>>
+       ELSE IF mode = "await" /\ IsAuto(cur) THEN DoAwaitAuto(ev)
        ELSE IF mode = "await" THEN DoAwait(ev)
        ELSE IF mode = "run" THEN DoRun(ev)
+       ELSE IF mode = "vonly" THEN
+            \* the input is invalid by a rule that precedes script execution; whatever the tool unrolled must not end as a valid spend
+            (IF Has(ev, "ok") /\ Has(ev, "done") /\ (ev.done \/ ~ev.ok) THEN
+                 (IF ev.ok /\ ev.done /\ FinalStackOK("witness", {}, HexSeq(ev.stack))
+                  THEN /\ divs' = Append(divs, Div("validity of the input", [op |-> "verdict", kind |-> "invalid-before-execution", consensus |-> AutoSetup(cur).why], ev))
+                       /\ mode' = "skip" /\ UNCHANGED <<cov, sess, cur, stats>>
+                  ELSE /\ mode' = "skip" /\ stats' = Bump("failed") /\ UNCHANGED <<divs, cov, sess, cur>>)
+             ELSE UNCHANGED <<divs, cov, sess, cur, mode, stats>>)
        ELSE /\ stats' = Bump("skipped") /\ UNCHANGED <<divs, cov, sess, cur, mode>>
 
 Spec == Init /\ [][Next]_vars
@@ -203,7 +267,7 @@ Result == [divs |-> divs, cov |-> cov, stats |-> stats, lines |-> Len(Tr)]
 Finished == l = Len(Tr) + 1
 WriteResult == Finished => ndJsonSerialize(OutFile, <<Result>>)
 \* the spec's own invariants, evaluated at every state of every implementation trace
-TypeOK == /\ mode \in {"idle", "await", "run", "skip"}
+TypeOK == /\ mode \in {"idle", "await", "run", "skip", "vonly"}
           /\ (mode = "run" => /\ sess.vm.status \in {"running", "ok"}
                               /\ Len(sess.vm.stack) + Len(sess.vm.alt) <= RealLimits.stack
                               /\ sess.vm.pc <= Len(sess.ctx.script)
